@@ -84,6 +84,9 @@ class RawTok(Model):
     def T(self):
         return RawTok(("T", self.origin), self.shape)
 
+    def take(self, idx, *a, **k):
+        return RawTok(("take", self.origin, getattr(idx, "origin", idx)), ("sel",))
+
     def __repr__(self):
         return "Raw(%r)" % (self.origin,)
 
